@@ -47,6 +47,19 @@ func VerifInspectorIsolation() {
 			Body: &zzBodyReader{data: append([]byte{}, b...)}, ContentLength: cl}
 		return r, b
 	}
+	if prep := gosym.Param("PREP"); prep > 0 {
+		// an earlier, larger request went through the inspector and was forwarded completely: the
+		// pool now holds a buffer that has grown to that request's size
+		big := make([]byte, prep)
+		for i := range big {
+			big[i] = 'x'
+		}
+		r0 := &http.Request{Method: "POST", URL: &url.URL{Path: "/v1/chat/completions"}, Header: http.Header{"Content-Type": {"application/json"}},
+			Body: &zzBodyReader{data: big}, ContentLength: int64(prep)}
+		gosym.Assert(bi.Inspect(context.Background(), r0, domain.NewRequestProfile("/v1/chat/completions")) == nil, "inspection never fails the request")
+		got0, _ := io.ReadAll(r0.Body)
+		gosym.Assert(len(got0) == prep, "the earlier request was forwarded whole")
+	}
 	r1, b1 := mk("body1")
 	r2, b2 := mk("body2")
 	p1, p2 := domain.NewRequestProfile("/v1/chat/completions"), domain.NewRequestProfile("/v1/chat/completions")
